@@ -170,8 +170,14 @@ def main(pid, tier):
         # prefer long histories (more PRV content)
         hs.sort(key=lambda x: -len(x[1]))
         system = emuhist.sys_with_rank(g.system)
-        for kind, events, t in hs[:per]:
+        for n_, (kind, events, t) in enumerate(hs[:per]):
             jobs.append(("model:" + cfg, system, events))
+            if n_ % 4 == 1:
+                # the same history followed by events that are accepted in any thread state and change no
+                # timeline (thread-creation records): the trace lasts until the last of them
+                trail = [{"th": events[-1]["th"], "m": "OHC", "mc": "O", "a": [0, 5 + k_, 0], "j": False}
+                         for k_ in range(1 + n_ % 3)]
+                jobs.append(("model:" + cfg + ":trailing-silent-events", system, events + trail))
     ck.phase("tlc_models")
     rs = core.tlc("System", "System_Tiny.cfg" if tier == "quick" else "System.cfg", timeout=3000, heap="12g")
     core.tlc_expect_ok(rs, "System")
